@@ -112,12 +112,26 @@ CompareOK(op, lt, rt, form) ==
           \/ N(lt) = "STRING" /\ rt = "STRING" /\ form = "literal"
           \/ N(lt) \in {"STRING", "IP"} /\ rt = "ACL"
 
+\* An operand that is a local variable (or a header) holds a value that got there somehow: it was only declared
+\* ("none"), or it was first assigned from a literal, from another local variable or from a predefined variable.
+\* What the tables allow does not depend on that - and neither may what the simulator does with the value.
+InitHows == {"none", "literal", "local", "predefined"}
+InitType(t, how) ==
+  CASE t = "HEADER"  -> IF how = "predefined" THEN "HEADER" ELSE "STRING"
+    [] t = "IP"      -> IF how = "literal" THEN "STRING" ELSE "IP"        \* an address written as a string literal
+    [] t = "BACKEND" -> IF how = "predefined" THEN "REQBACKEND" ELSE "BACKEND"
+    [] OTHER         -> t
+\* the initialising assignment itself must be one the tables allow
+InitExists(t, how) == how = "none" \/ (Exists(InitType(t, how), how) /\ AssignOK("=", t, InitType(t, how), how))
+RInits(rt, form) == IF form = "local" THEN {h \in InitHows \ {"none"} : InitExists(rt, h)} ELSE {"none"}
+
 OpCells ==
-  {[kind |-> "assign", op |-> op, lt |-> lt, rt |-> rt, form |-> f] :
-      op \in AssignOps, lt \in LeftKinds, rt \in RightTypes, f \in Forms}
+  {[kind |-> "assign", op |-> op, lt |-> lt, rt |-> rt, form |-> f, linit |-> li, rinit |-> ri] :
+      op \in AssignOps, lt \in LeftKinds, rt \in RightTypes, f \in Forms, li \in InitHows, ri \in InitHows}
   \cup
-  {[kind |-> "compare", op |-> op, lt |-> lt, rt |-> rt, form |-> f] :
-      op \in CompareOps, lt \in LeftKinds, rt \in RightTypes, f \in Forms}
+  {[kind |-> "compare", op |-> op, lt |-> lt, rt |-> rt, form |-> f, linit |-> li, rinit |-> ri] :
+      op \in CompareOps, lt \in LeftKinds, rt \in RightTypes, f \in Forms, li \in InitHows, ri \in InitHows}
+OpCellExists(d) == Exists(d.rt, d.form) /\ InitExists(d.lt, d.linit) /\ d.rinit \in RInits(d.rt, d.form)
 
 OpExpect(c) == IF c.kind = "assign" THEN AssignOK(c.op, c.lt, c.rt, c.form) ELSE CompareOK(c.op, c.lt, c.rt, c.form)
 
@@ -167,7 +181,7 @@ ReturnAllowed(a, S) == \A sc \in S : a \in ReturnActions(sc)
 VARIABLE cell
 vars == << cell >>
 
-InitOps  == cell \in {d \in OpCells : Exists(d.rt, d.form)}
+InitOps  == cell \in {d \in OpCells : OpCellExists(d)}
 InitVars == \E v \in VarTable, acc \in Accesses, S \in ScopeSets :
                /\ InSlice(v.idx + ScopeIdx(S))
                /\ cell = [kind |-> "var", name |-> v.name, access |-> acc, get |-> v.get, set |-> v.set,
@@ -206,6 +220,20 @@ InitSigs ==
                                                         ELSE IF f.sigs[k][i] = "STRING_LIST" THEN "STRING" ELSE f.sigs[k][i]],
                   ret |-> f.ret, extra |-> f.extra, scopes |-> << HomeScope(f) >>, allowed |-> FALSE]
 
+\* implicit conversion of an argument: passing a value to a STRING parameter follows the assignment rule
+\* STRING = value (a variable of another type converts, a literal does not - except BOOL)
+ConvTypes == {"INTEGER", "FLOAT", "BOOL", "RTIME", "TIME", "IP"}
+\* parameters that are regular expression patterns must be string literals whatever their type says
+PatternParams == {<<"regsub", 2>>, <<"regsuball", 2>>}
+InitConv ==
+  \E f \in {g \in FnTable : g.on \cap Scopes # {}} : \E k \in 1..Len(f.sigs) : \E p \in 1..Len(f.sigs[k]) :
+     \E rt \in ConvTypes, form \in Forms :
+        /\ f.sigs[k][p] = "STRING" /\ <<f.name, p>> \notin PatternParams /\ Exists(rt, form)
+        /\ cell = [kind |-> "fnconv", name |-> f.name,
+                   sig |-> [i \in 1..Len(f.sigs[k]) |-> IF f.sigs[k][i] = "STRING_LIST" THEN "STRING" ELSE f.sigs[k][i]],
+                   pos |-> p, rt |-> rt, form |-> form, ret |-> f.ret, extra |-> f.extra,
+                   scopes |-> << HomeScope(f) >>, allowed |-> AssignOK("=", "STRING", rt, form)]
+
 InitStmts == \/ \E s \in Stmts, S \in ScopeSets :
                   cell = [kind |-> "stmt", stmt |-> s, action |-> "", scopes |-> SeqOf(S), allowed |-> StmtAllowed(s, S)]
              \/ \E a \in Actions, S \in ScopeSets :
@@ -217,7 +245,8 @@ Init ==
     [] Mode = "fns"   -> InitFns
     [] Mode = "stmts" -> InitStmts
     [] Mode = "sigs"  -> InitSigs
-    [] Mode = "all"   -> InitOps \/ InitVars \/ InitFns \/ InitSigs \/ InitStmts
+    [] Mode = "conv"  -> InitConv
+    [] Mode = "all"   -> InitOps \/ InitVars \/ InitFns \/ InitSigs \/ InitConv \/ InitStmts
 
 Next == FALSE /\ UNCHANGED vars
 Spec == Init /\ [][Next]_vars
@@ -242,6 +271,8 @@ ASSUME \A op \in AssignOps, lt \in LeftKinds, rt \in RightTypes :
           /\ Class(op, lt, rt) \in {"both", "var", "no"}
           /\ AssignOK(op, lt, rt, "literal") => AssignOK(op, lt, rt, "local")
           /\ AssignOK(op, lt, rt, "local") <=> AssignOK(op, lt, rt, "predefined")
+\* every left kind can be given a value in at least one way besides being declared
+ASSUME \A lt \in LeftKinds : \E h \in InitHows \ {"none"} : InitExists(lt, h)
 ASSUME \A op \in CompareOps, lt \in LeftKinds, rt \in RightTypes, f \in Forms : CompareOK(op, lt, rt, f) \in BOOLEAN
 \* the multi-scope rule is a conjunction: monotone in the scope set, and a pair is allowed iff both members are
 ASSUME \A s \in Stmts : \A S \in ScopeSets : StmtAllowed(s, S) <=> \A sc \in S : StmtAllowed(s, {sc})
